@@ -4,7 +4,7 @@
      multi-line quoted words, continuations) and positions advance by exactly the newlines consumed;
    - the '#phil __OFF__' region scanner keeps the line counter consistent for regions of any content;
    - every scope and definition of a parsed tree reports the line of the word that named it, every value
-     word its own line (dotted-name prefix scopes carry no line): parse_lines_ok;
+     word its own line (dotted-name prefix scopes carry no line, and the id of their only child): parse_lines_ok;
    - every error cites the line of the token it names (or the last line for a missing closing quote, or
      no line, or a line handed through from an oracle answer): parse_error_cites / _token_line / _line_ok.
    Unused-definition reports and value-conversion errors are covered by C06's and C10's streams; the
